@@ -347,3 +347,69 @@ def hypothesis_search(strategy, test, seed, max_examples, res, to_case=lambda x:
             remaining = 0
         rounds += 1
     return excluded
+
+
+class RngChooser(object):
+    """choice source backed by random.Random (enumerators, replay of recorded choices)"""
+
+    def __init__(self, rng):
+        self.rng = rng
+        self.trace = []
+
+    def n(self, k):
+        v = self.rng.randrange(k) if k > 1 else 0
+        self.trace.append(v)
+        return v
+
+    def p(self, prob):
+        return self.n(1000) < int(prob * 1000)
+
+    def pick(self, seq):
+        return seq[self.n(len(seq))]
+
+
+class ReplayChooser(object):
+    """replays a recorded choice sequence (zeros once exhausted): the replay file of a shrunk case"""
+
+    def __init__(self, trace):
+        self.src = list(trace)
+        self.i = 0
+        self.trace = []
+
+    def n(self, k):
+        v = self.src[self.i] if self.i < len(self.src) else 0
+        self.i += 1
+        if k <= 1:
+            v = 0
+        else:
+            v = v % k
+        self.trace.append(v)
+        return v
+
+    def p(self, prob):
+        return self.n(1000) < int(prob * 1000)
+
+    def pick(self, seq):
+        return seq[self.n(len(seq))]
+
+
+class HypChooser(object):
+    """choice source backed by Hypothesis draws, so that Hypothesis shrinks the choice sequence
+    (alternatives listed first / smaller numbers are the simpler ones)"""
+
+    def __init__(self, data):
+        from hypothesis import strategies as st
+        self.data = data
+        self.st = st
+        self.trace = []
+
+    def n(self, k):
+        v = self.data.draw(self.st.integers(0, k - 1)) if k > 1 else 0
+        self.trace.append(v)
+        return v
+
+    def p(self, prob):
+        return self.n(1000) < int(prob * 1000)
+
+    def pick(self, seq):
+        return seq[self.n(len(seq))]
